@@ -39,7 +39,73 @@ def shards_for(tier, seed, parts=("blind", "guided", "gen"), overrides=None):
     if "gen" in parts:
         for k in range(b["genshards"]):
             out.append(("gen", seed * 1000 + k, b))
+    if "matrix" in parts or "gen" in parts:
+        for k in range(4):
+            out.append(("matrix", k, 4))
     return out
+
+
+def minimal_use(name, table=None):
+    """Token list of a minimal VALID script using command/test `name`
+    (require first), and the index right after the command identifier."""
+    from .refsieve import TABLE
+    table = table or TABLE
+    e = table[name]
+    exts = []
+    if e.ext:
+        exts.append(e.ext)
+    args = []
+    for p in e.pos:
+        if p.optional:
+            continue
+        if "tag" in p.kinds:
+            args.append(p.choices[0])
+        elif "num" in p.kinds:
+            args.append(b"1")
+        else:
+            args.append(b'"a"')
+    toks = []
+    if e.role == "test":
+        toks = [b"if", name] + args
+        at = 2
+        if e.test == "one":
+            toks += [b"true"]
+        elif e.test == "list":
+            toks += [b"(", b"true", b")"]
+        toks += [b"{", b"}"]
+    else:
+        pre = []
+        if e.follow:
+            pre = [b"if", b"true", b"{", b"}"]
+        toks = pre + [name] + args
+        at = len(pre) + 1
+        if e.test == "one":
+            toks += [b"true"]
+        if e.block:
+            toks += [b"{", b"}"]
+        else:
+            toks += [b";"]
+    return exts, toks, at
+
+
+def matrix_cases():
+    """Every command x every tag of the vocabulary inserted right after the
+    command identifier, without and with a parameter of each kind, each with
+    all extensions required (so that only the tag's legality is at stake)."""
+    from .refsieve import TABLE, SUPPORTED_EXTENSIONS
+    req = [b"require", b"["]
+    for i, x in enumerate(SUPPORTED_EXTENSIONS):
+        if i:
+            req.append(b",")
+        req.append(b'"%s"' % x.encode())
+    req += [b"]", b";"]
+    params = [[], [b'"i;octet"'], [b'"ge"'], [b'"x"'], [b"7"], [b"[", b'"x"', b"]"]]
+    for name in sorted(TABLE):
+        exts, toks, at = minimal_use(name)
+        for tag in T.TAGS + [T.UNKNOWN_TAG]:
+            for variant in (tag, tag.upper()):
+                for par in params:
+                    yield req + toks[:at] + [variant] + par + toks[at:]
 
 
 def _judge_of(modname):
@@ -62,6 +128,11 @@ def worker(arg):
     elif kind == "gen":
         _, sd, b = shard
         _gen_shard(judge, col, sd, b)
+    elif kind == "matrix":
+        _, k, n = shard
+        for i, toks in enumerate(matrix_cases()):
+            if i % n == k:
+                judge(T.join(toks), {"src": "matrix", "toks": toks}, col)
     return col
 
 
